@@ -108,6 +108,9 @@ func (cr *clRun) electedAtColdStart(addr string) {
 func (cr *clRun) issueAdmin(i int, op Op) {
 	c := cr.c
 	a := &adminOp{idx: i, kind: op.K, at: cr.w.Now()}
+	c.mu.Lock()
+	a.httpIdx0 = len(c.httpLog)
+	c.mu.Unlock()
 	cr.admins = append(cr.admins, a)
 	cc := cclient.NewControllerClient("http://10.0.0.1:9501")
 	var pre map[string]string
@@ -417,7 +420,14 @@ func (cr *clRun) judgeAdmin(a *adminOp, op Op, pre map[string]string, idleBefore
 		// the volume now shows the snapshot image
 		for _, s := range cr.snaps {
 			if s.name == a.arg {
-				rv := &revertRec{holders: map[string]bool{}, pre: append([]uint64(nil), cr.m.val...), preWild: append([]bool(nil), cr.m.wild...)}
+				rv := &revertRec{holders: map[string]bool{}, sent: map[string]bool{}, pre: append([]uint64(nil), cr.m.val...), preWild: append([]bool(nil), cr.m.wild...)}
+				cr.c.mu.Lock()
+				for _, h := range cr.c.httpLog[a.httpIdx0:] {
+					if h.To != nil && strings.Contains(h.URL, "action=revert") && strings.Contains(h.URL, "/v1/replicas/1") {
+						rv.sent[cr.addrOf(h.To.Name)] = true
+					}
+				}
+				cr.c.mu.Unlock()
 				for _, r := range cr.c.ctrl.ListReplicas() {
 					if r.Mode == types.RW {
 						rv.holders[r.Address] = true
@@ -766,6 +776,9 @@ func (cr *clRun) deepChecks(when string, promoted string) {
 			} else if w, f, e := cr.electedCountingFailedWrite(bad); w != nil {
 				clause += "/elected-replica-counted-failed-write"
 				why += cr.d31Note(w, f, e)
+			} else if rv := cr.revertSkipped(rn.addr, bad); rv != nil {
+				clause += "/rw-replica-not-reverted"
+				why += fmt.Sprintf(" [%s is listed RW after a successful volume revert but the revert call was sent only to %v]", rn.name, sortedNames(rv.sent))
 			} else if w := cr.punchedThenRebuilt(rn.addr, bad); w != nil {
 				clause += "/punched-snapshot-not-resynced"
 				why += cr.d28Note(w, rn.name)
